@@ -162,6 +162,9 @@ func main() {
 	seen := map[string]bool{}
 	for i := 0; i < nRandom; i++ {
 		n := 1 + r.Intn(12)
+		if i%8 == 0 {
+			n = 13 + r.Intn(30) // many classes in one set: the backing array has to grow while classes are inserted in the middle
+		}
 		seq := make([]iv, n)
 		for k := range seq {
 			a, b := pick(), pick()
